@@ -126,7 +126,7 @@ class UnitFile:
         gname = rename or name
         qual = (impl + "::" if impl else "") + name
         self._emit_item(it, rel, gname, contract, rules, subst, kind="fn",
-                        wrap_impl=wrap_impl if wrap_impl is not None else impl, qual=qual)
+                        wrap_impl=wrap_impl if wrap_impl is not None else impl, qual=qual, orig=name)
 
     def add_block_fn(self, rel, within, pattern, sig, contract=None, rules=(), subst=(),
                      impl=None, nth=0, upto=None, name=None, prefix="", suffix=""):
@@ -148,7 +148,7 @@ class UnitFile:
 
     # ------------------------------------------------------------------
     def _emit_item(self, it, rel, gname, contract, rules, subst, kind, wrap_impl=None,
-                   qual=None, sig=None, prefix="", suffix=""):
+                   qual=None, sig=None, prefix="", suffix="", orig=None):
         rw.reset_counter()
         # line-aligned text with doc comments / dropped attributes blanked
         kept = dict(it.lines())
@@ -202,6 +202,8 @@ class UnitFile:
             cut = toks[j].start
             head, body_text = text[:cut].rstrip(), text[cut:]
             body_line0 = it.line0 + text[:cut].count("\n")
+        if orig and orig != gname:
+            head = re.sub(r"\bfn\s+%s\b" % re.escape(orig), "fn " + gname, head, count=1)
         if contract is not None:
             head = rw.named_ret(head, contract.ret)
         if wrap_impl:
